@@ -31,6 +31,33 @@ OLD_PROTOCOL_ERRORS = {
 }
 
 
+def _is_contact_triple_list(value) -> bool:
+    return isinstance(value, list) and all(
+        isinstance(triple, list) and len(triple) == 3
+        and isinstance(triple[0], bytes) and len(triple[0]) == constants.HASH_LENGTH
+        and isinstance(triple[1], bytes) and triple[1].isascii()
+        and isinstance(triple[2], int) and 0 < triple[2] < 65536
+        for triple in value
+    )
+
+
+def is_well_formed_response(request: RequestDatagram, response) -> bool:
+    """whether the payload of a response datagram is a reply to the request whose rpc id it carries"""
+    if request.method == b'ping':
+        return response == b'pong'
+    if request.method == b'store':
+        return response == b'OK'
+    if request.method == b'findNode':
+        return _is_contact_triple_list(response)
+    if request.method == b'findValue' and isinstance(response, dict):
+        token, blob_peers = response.get(b'token'), response.get(request.args[0], [])
+        return isinstance(token, bytes) and len(token) == constants.HASH_LENGTH \
+            and _is_contact_triple_list(response.get(b'contacts', [])) \
+            and isinstance(response.get(PAGE_KEY, 0), int) and isinstance(blob_peers, list) \
+            and all(isinstance(p, bytes) and len(p) == 6 + constants.HASH_LENGTH for p in blob_peers)
+    return False
+
+
 class KademliaRPC:
     stored_blob_metric = Gauge(
         "stored_blobs", "Number of blobs announced by other peers", namespace="dht_node",
@@ -467,7 +494,7 @@ class KademliaProtocol(DatagramProtocol):
     def handle_response_datagram(self, address: typing.Tuple[str, int], response_datagram: ResponseDatagram):
         # Find the message that triggered this response
         if response_datagram.rpc_id in self.sent_messages:
-            peer, future, _ = self.sent_messages[response_datagram.rpc_id]
+            peer, future, request = self.sent_messages[response_datagram.rpc_id]
             if peer.address != address[0]:
                 future.set_exception(
                     RemoteException(f"response from {address[0]}, expected {peer.address}")
@@ -480,6 +507,14 @@ class KademliaProtocol(DatagramProtocol):
                 return
             elif response_datagram.node_id == self.node_id:
                 future.set_exception(RemoteException("incoming message is from our node id"))
+                return
+            if not is_well_formed_response(request, response_datagram.response):
+                # the envelope decoded, the payload is not a reply to what was asked: the sender did not answer
+                log.warning("malformed %s response from %s:%i", request.method, address[0], address[1])
+                if not future.done():
+                    future.set_exception(RemoteException("malformed response"))  # send_request books the failure
+                else:
+                    self.peer_manager.report_failure(address[0], address[1])
                 return
             try:
                 peer = make_kademlia_peer(response_datagram.node_id, address[0], address[1])
